@@ -412,6 +412,9 @@ OUTCOMES = {
     'partly_skipped': (['>>> mark("{id}")', '>>> print("a")  # xdoctest: +SKIP', 'zzz', '>>> print("b")', 'b'], 'passed', True),
     'expected_exc': (['>>> mark("{id}")', '>>> raise ValueError("v")', 'Traceback (most recent call last):',
                       'ValueError: v'], 'passed', True),
+    # the only statement of the doctest raises the exception its want documents (nothing else is logged)
+    'expected_exc_only': (['>>> raise ValueError("v {id}")', 'Traceback (most recent call last):', 'ValueError: v {id}'],
+                          'passed', False),
     'disabled': (['>>> # DISABLE_DOCTEST', '>>> mark("{id}")', '>>> raise ValueError("v")'], 'disabled', True),
     'disabled_script': (['>>> # SCRIPT', '>>> mark("{id}")'], 'disabled', True),
     'comment_only': (['>>> # just a comment'], 'skipped', False),
